@@ -28,6 +28,9 @@ type RuleSpec struct {
 	// item rules of arrays
 	Item *RuleSpec
 
+	StrMin, StrMax *string // date / decimal bounds
+	ListFilter, ListSort, ListSearchable bool
+
 	Attrs []string // rendered body lines
 }
 
@@ -58,7 +61,7 @@ func (rs *RuleSpec) program() *Program {
 	if rs.Family == "map" {
 		t = MapOf(T(TString))
 	}
-	fd := &Field{Name: "val", T: t, Required: rs.Required, Attrs: attrs}
+	fd := &Field{Name: "val", T: t, Required: rs.Required, Attrs: attrs, Rule: rs}
 	f.Add(obj("Holder", fd))
 	return &Program{Files: []*File{f}}
 }
@@ -243,7 +246,34 @@ func RuleSpecs() []*RuleSpec {
 func OtherRuleSpecs() []*RuleSpec {
 	var out []*RuleSpec
 	mk := func(id, fam string, k TKind, attrs ...string) {
-		out = append(out, &RuleSpec{ID: id, Family: fam, Kind: k, Attrs: attrs})
+		rs := &RuleSpec{ID: id, Family: fam, Kind: k, Attrs: attrs}
+		for _, a := range attrs {
+			switch {
+			case strings.HasPrefix(a, "listRules.filtering.filterable"):
+				rs.ListFilter = true
+			case strings.HasPrefix(a, "listRules.sorting.sortable"):
+				rs.ListSort = true
+			case strings.HasPrefix(a, "listRules.searching.searchable"):
+				rs.ListSearchable = true
+			case strings.HasPrefix(a, "rules.minimum = \""):
+				rs.StrMin = sp(strings.Trim(strings.TrimPrefix(a, "rules.minimum = "), "\""))
+			case strings.HasPrefix(a, "rules.maximum = \""):
+				rs.StrMax = sp(strings.Trim(strings.TrimPrefix(a, "rules.maximum = "), "\""))
+			case fam == "integer" && strings.HasPrefix(a, "rules.minimum = "):
+				var v int64
+				fmt.Sscan(strings.TrimPrefix(a, "rules.minimum = "), &v)
+				rs.Min = i64(v)
+			case fam == "integer" && strings.HasPrefix(a, "rules.maximum = "):
+				var v int64
+				fmt.Sscan(strings.TrimPrefix(a, "rules.maximum = "), &v)
+				rs.Max = i64(v)
+			case a == "rules.exclusiveMinimum = true":
+				rs.ExclMin = bp(true)
+			case a == "rules.exclusiveMaximum = true":
+				rs.ExclMax = bp(true)
+			}
+		}
+		out = append(out, rs)
 	}
 	mk("float:min-max", "float", TFloat64, "rules.minimum = 1.5", "rules.maximum = 10", "rules.exclusiveMinimum = true")
 	mk("float32:max", "float", TFloat32, "rules.maximum = 10")
